@@ -1,3 +1,5 @@
+#[cfg(feature = "iggy_verif")]
+use iggy::verif::tokio;
 use super::indexes::*;
 use super::logs::*;
 use crate::configs::system::SystemConfig;
@@ -351,6 +353,16 @@ impl Segment {
         );
 
         Ok(())
+    }
+
+    #[cfg(feature = "iggy_verif")]
+    pub(crate) fn verif_log_size_bytes(&self) -> u64 {
+        self.log_size_bytes.load(Ordering::Acquire)
+    }
+
+    #[cfg(feature = "iggy_verif")]
+    pub(crate) fn verif_index_size_bytes(&self) -> u64 {
+        self.index_size_bytes.load(Ordering::Acquire)
     }
 
     fn get_log_path(path: &str) -> String {
